@@ -58,7 +58,7 @@ def check_stft(case):
     if any(len(bank.get_truncated_response(i, D0)[1]) == 0 for i in range(bank.num_filts)):
         # a filter without a single DFT bin: the torch module documents a ValueError for empty filters
         raise Discard()
-    sig = dict(case["sig"])
+    sig = dict(case["sig"], layout="contig")
     N = sig["n"]
     if L // 2 + 1 <= N < L:
         N = L + (N % (2 * L))  # map the uncovered band onto N >= L
@@ -74,6 +74,12 @@ def check_stft(case):
         else:
             mod = call("from_stft_frame_computer", PyTorchSTFTFrameComputer.from_stft_frame_computer, comp)
         rtol, afrac = 2e-4, 2e-5
+    if case.get("strided"):
+        # a view with a stride (every other sample of a longer buffer) is as valid a signal as a contiguous one
+        big = np.zeros(2 * len(x) + 1, dtype=x.dtype)
+        big[::2][: len(x)] = x
+        big[1::2] = 7.5
+        x = big[::2][: len(x)]
     ref = call("compute_full", comp.compute_full, x.astype(np.float64) if prec != "double" else x)
     with torch.no_grad():
         if case.get("prior_n") is not None:
@@ -81,7 +87,7 @@ def check_stft(case):
             y = make_signal({"n": case["prior_n"], "kind": "noise", "seed": 5, "scale": 3.0}, x.dtype)
             if not (L // 2 + 1 <= len(y) < L):
                 call("torch module forward (earlier call)", mod, torch.from_numpy(y))
-        out = call("torch module forward", mod, torch.from_numpy(x.copy()))
+        out = call("torch module forward", mod, torch.from_numpy(x if case.get("strided") else x.copy()))
     require(isinstance(out, torch.Tensor) and out.ndim == 2, "module returned {!r}", type(out))
     got = out.numpy().astype(np.float64)
     require(
@@ -101,6 +107,8 @@ def check_stft(case):
         labels.append("empty-output")
     if spec["include_energy"]:
         labels.append("energy")
+    if case.get("strided"):
+        labels.append("strided-input")
     if kal:
         labels.append("kaldi")
     if case.get("script"):
@@ -123,7 +131,7 @@ def check_preemph(case):
     from pydrobert.speech.torch import PyTorchPreemphasize
 
     dt = np.float64 if case["prec"] == "double" else np.float32
-    x = make_signal(case["sig"], dt)
+    x = make_signal(_contig(case["sig"]), dt)
     pre = Preemphasize(case["coeff"])
     ref = call("Preemphasize.apply", pre.apply, x)
     mod = call("from_preemphasize", PyTorchPreemphasize.from_preemphasize, pre)
@@ -169,6 +177,10 @@ def check_post(case):
     return {"nontrivial": case["T"] >= 2, "labels": ["post=" + case["post"]["alias"], "prec=" + case["prec"]]}
 
 
+def _contig(sig):
+    return dict(sig, layout="contig")
+
+
 def check_si(case):
     torch = T()
     from pydrobert.speech.torch import PyTorchSIFrameComputer
@@ -180,7 +192,7 @@ def check_si(case):
     comp = call("SI constructor", build_si, spec, bank)
     comp2 = build_si(spec, bank)
     dt = np.float64 if case["prec"] == "double" else np.float32
-    x = make_signal(case["sig"], dt)
+    x = make_signal(_contig(case["sig"]), dt)
     ref = call("compute_full", comp2.compute_full, x)
     mod = call("from_si_frame_computer", PyTorchSIFrameComputer.from_si_frame_computer, comp)
     out = call("PyTorchSIFrameComputer(%s[%d])" % (case["prec"], len(x)), mod, torch.from_numpy(x.copy()))
@@ -245,6 +257,7 @@ def _stft_cases(draw):
         n = draw(st.sampled_from([4097, 10000, 16385]))
     return {
         "prior_n": draw(st.one_of(st.none(), st.none(), st.integers(0, 4 * L))),
+        "strided": draw(st.sampled_from([False, False, False, True])),
         "comp": comp,
         "sig": draw(signal_specs(st.just(n))),
         "prec": draw(st.sampled_from(["double", "double", "single", "default"])),
